@@ -296,4 +296,178 @@ theorem gen_spec (dflt : D) (dg : Nat → Nat → D) (m : Nat) (xs : List D) (hn
   subst hget
   exact hval _ _ (hsibbend b hb t ht)
 
+/-- **the generated proof verifies**, for every digest assignment: between `⟨m, dpeaks dg m⟩` and the accumulator after
+    appending `xs` -/
+theorem gen_verifies [DecidableEq D] (dflt : D) (dg : Nat → Nat → D) (m : Nat) (xs : List D)
+    (hn : m + xs.length < 2 ^ 63) (hne : NodeEq H dg m) (hleaf : ∀ i x, xs[i]? = some x → dg 0 (m + i) = x) :
+    ∃ paths, newFromBatchAppend H dflt ⟨m, dpeaks dg m⟩ xs = some paths ∧
+      verify H dflt paths ⟨m, dpeaks dg m⟩ ⟨m + xs.length, dpeaks dg (m + xs.length)⟩ = some true := by
+  refine ⟨_, gen_spec H dflt dg m xs hn hne hleaf, ?_⟩
+  generalize hnn : m + xs.length = n at hn ⊢
+  have h63 : (2:Nat) ^ 63 < 2 ^ 64 := by decide
+  have hmn : m ≤ n := by omega
+  have hl : (dpeaks dg n).length < 2 ^ 32 := by
+    rw [dpeaks_length]
+    have := popCount_lt_two_pow 64 n (by omega)
+    omega
+  rw [verify_eq_spec H dflt _ _ _ (by simp only; omega) (by simp only; omega) hl]
+  simp only [succVerify, hmn, dpeaks_length, decide_true, Bool.true_and, Option.some.injEq]
+  have hsegs : (peakBlk m).map (fun b => dgs dg (sibBlks b.1 b.2 (upLen n b.1 b.2)))
+      = (peakPos m).map (fun q => dgs dg (sibBlks q.1 (q.2 / 2 ^ q.1) (upLen n q.1 (q.2 / 2 ^ q.1)))) := by
+    unfold peakBlk; rw [List.map_map]; rfl
+  have hops : dpeaks dg m = (peakPos m).map (fun q => dg q.1 (q.2 / 2 ^ q.1)) := by
+    unfold dpeaks peakBlk; rw [List.map_map]; rfl
+  rw [hsegs, hops]
+  apply succGo_complete H n (dpeaks dg n) (peakPos m) _ _ (by simp) (by simp)
+  intro i p q seg hp hq hseg
+  rw [List.getElem?_map, hq] at hp hseg
+  simp only [Option.map_some, Option.some.injEq] at hp hseg
+  subst hp hseg
+  obtain ⟨h, s⟩ := q
+  have hqmem : (h, s) ∈ peakPos m := List.mem_of_getElem? hq
+  obtain ⟨hdvd, hle⟩ := peakPos_mem m (h, s) hqmem
+  simp only at hdvd hle ⊢
+  have hpos : 0 < 2 ^ h := Nat.pow_pos (by omega)
+  have hs : s / 2 ^ h * 2 ^ h = s := Nat.div_mul_cancel hdvd
+  generalize hj : s / 2 ^ h = j at *
+  have hpb : (h, j) ∈ peakBlk m := by
+    unfold peakBlk
+    exact List.mem_map.mpr ⟨(h, s), hqmem, by simp [hj]⟩
+  have hb : bend h j ≤ n := by
+    unfold bend
+    have : (j + 1) * 2 ^ h = j * 2 ^ h + 2 ^ h := by ring
+    omega
+  obtain ⟨hc1, hc2, hc3⟩ := chain_facts n h j hb
+  rw [hs] at hc3
+  have hup : upLen n h j = (locate n s).1 - h := by unfold upLen; rw [hs]
+  refine ⟨by omega, by simp [dgs, sibBlks_length, hup], ?_⟩
+  rw [dpeaks_getElem_locate dg n s (by omega)]
+  congr 1
+  rw [foldBlk_dg H dg m hne (upLen n h j) h j (fun _ => by
+    have := oldPeak_anc_gt m h j hpb 0
+    simpa using this)]
+  have hbd := blk_div h j (upLen n h j)
+  rw [hs, hc3] at hbd
+  rw [hc3, hbd]
+
+/-! ### a digest assignment for an arbitrary consistent accumulator -/
+
+/-- the index of a peak in the peak list is the peak index `locate` computes for its first leaf -/
+theorem locate_peakPos : ∀ (n i h s : Nat), (peakPos n)[i]? = some (h, s) → (locate n s).2.2 = i := by
+  intro n
+  induction n using Nat.strongRecOn with
+  | _ n ih =>
+    intro i h s hget
+    by_cases hn : n = 0
+    · subst hn; simp [peakPos_zero] at hget
+    · rw [peakPos_unfold n hn] at hget
+      have hlen : ((peakPos (n / 2)).map (fun p => (p.1 + 1, 2 * p.2))).length = TF.popCount (n / 2) := by
+        rw [List.length_map, peakPos_length]
+      by_cases hi : i < TF.popCount (n / 2)
+      · rw [List.getElem?_append_left (by omega), List.getElem?_map] at hget
+        cases hq : (peakPos (n / 2))[i]? with
+        | none => rw [hq] at hget; simp at hget
+        | some q =>
+          rw [hq] at hget
+          simp only [Option.map_some, Option.some.injEq, Prod.mk.injEq] at hget
+          obtain ⟨h', s'⟩ := q
+          obtain ⟨rfl, rfl⟩ := hget
+          have hmem := peakPos_mem (n / 2) (h', s') (List.mem_of_getElem? hq)
+          simp only at hmem
+          have hpos : 0 < 2 ^ h' := Nat.pow_pos (by omega)
+          rw [locate_unfold n (2 * s') hn, if_neg (by omega)]
+          simp only
+          have e : 2 * s' / 2 = s' := by omega
+          rw [e]
+          exact ih (n / 2) (by omega) i h' s' hq
+      · rw [List.getElem?_append_right (by omega), hlen] at hget
+        by_cases hodd : n % 2 = 1
+        · rw [if_pos hodd] at hget
+          have hi0 : i - TF.popCount (n / 2) = 0 := by
+            by_contra hc
+            rw [List.getElem?_eq_none (by simp; omega)] at hget
+            cases hget
+          rw [hi0] at hget
+          simp only [List.getElem?_cons_zero, Option.some.injEq, Prod.mk.injEq] at hget
+          obtain ⟨rfl, rfl⟩ := hget
+          rw [locate_unfold n (n - 1) hn, if_pos ⟨hodd, rfl⟩]
+          have := popCount_unfold n
+          simp only; omega
+        · rw [if_neg hodd] at hget; simp at hget
+
+/-- a digest assignment for the accumulator `⟨m, ps⟩` and the leaves `xs` to be appended: blocks inside the old leaves
+    carry the old peak of their tree (only the old peak blocks themselves matter), new leaves carry `xs`, every other
+    block is the hash of its halves -/
+def mkDg (dflt : D) (m : Nat) (ps xs : List D) : Nat → Nat → D
+  | 0, j => if j + 1 ≤ m then (ps[(locate m j).2.2]?).getD dflt else (xs[j - m]?).getD dflt
+  | l + 1, j =>
+    if bend (l + 1) j ≤ m then (ps[(locate m (j * 2 ^ (l + 1))).2.2]?).getD dflt
+    else H (mkDg dflt m ps xs l (2 * j)) (mkDg dflt m ps xs l (2 * j + 1))
+
+theorem mkDg_old (dflt : D) (m : Nat) (ps xs : List D) (l j : Nat) (h : bend l j ≤ m) :
+    mkDg H dflt m ps xs l j = (ps[(locate m (j * 2 ^ l)).2.2]?).getD dflt := by
+  cases l with
+  | zero =>
+    rw [mkDg, if_pos (by unfold bend at h; omega)]
+    simp
+  | succ l => rw [mkDg, if_pos h]
+
+theorem mkDg_nodeEq (dflt : D) (m : Nat) (ps xs : List D) : NodeEq H (mkDg H dflt m ps xs) m := by
+  intro l j hlt
+  conv => lhs; rw [mkDg]
+  rw [if_neg (by omega)]
+
+theorem mkDg_leaf (dflt : D) (m : Nat) (ps xs : List D) (i : Nat) (x : D) (hx : xs[i]? = some x) :
+    mkDg H dflt m ps xs 0 (m + i) = x := by
+  rw [mkDg, if_neg (by omega)]
+  have e : m + i - m = i := by omega
+  rw [e, hx]; rfl
+
+theorem mkDg_dpeaks (dflt : D) (m : Nat) (ps xs : List D) (hlen : TF.popCount m = ps.length) :
+    dpeaks (mkDg H dflt m ps xs) m = ps := by
+  apply List.ext_getElem?
+  intro i
+  unfold dpeaks peakBlk
+  rw [List.map_map, List.getElem?_map]
+  cases hq : (peakPos m)[i]? with
+  | none =>
+    have := List.getElem?_eq_none_iff.mp hq
+    rw [peakPos_length] at this
+    rw [List.getElem?_eq_none (by omega)]
+    rfl
+  | some q =>
+    obtain ⟨h, s⟩ := q
+    have hmem := peakPos_mem m (h, s) (List.mem_of_getElem? hq)
+    simp only at hmem
+    have hi : i < ps.length := by
+      have := (List.getElem?_eq_some_iff.mp hq).1
+      rw [peakPos_length] at this; omega
+    have hs : s / 2 ^ h * 2 ^ h = s := Nat.div_mul_cancel hmem.1
+    have hb : bend h (s / 2 ^ h) ≤ m := by
+      unfold bend
+      have : (s / 2 ^ h + 1) * 2 ^ h = s / 2 ^ h * 2 ^ h + 2 ^ h := by ring
+      omega
+    simp only [Option.map_some, Function.comp]
+    rw [mkDg_old H dflt m ps xs h (s / 2 ^ h) hb, hs, locate_peakPos m i h s hq, List.getElem?_eq_getElem hi]
+    rfl
+
+/-- **completeness of `new_from_batch_append`**: for every consistent accumulator (as many peaks as the leaf count has
+    set bits — the peak digests themselves are arbitrary) and every list of leaves with fewer than `2^63` leaves in
+    total, the appends succeed, `new_from_batch_append` returns a proof, and `verify` accepts it between the old
+    accumulator and the resulting one -/
+theorem newFromBatchAppend_verifies [DecidableEq D] (dflt : D) (old : Acc D) (leafs : List D)
+    (hc : TF.popCount old.count = old.peaks.length) (hn : old.count + leafs.length < 2 ^ 63) :
+    ∃ new paths, Acc.appendAll H leafs old = some new ∧ newFromBatchAppend H dflt old leafs = some paths ∧
+      verify H dflt paths old new = some true := by
+  obtain ⟨m, ps⟩ := old
+  simp only at hc hn
+  have h63 : (2:Nat) ^ 63 < 2 ^ 64 := by decide
+  have hps := mkDg_dpeaks H dflt m ps leafs hc
+  have hne := mkDg_nodeEq H dflt m ps leafs
+  have hleaf := mkDg_leaf H dflt m ps leafs
+  obtain ⟨paths, h1, h2⟩ := gen_verifies H dflt (mkDg H dflt m ps leafs) m leafs hn hne hleaf
+  have h3 := appendAll_dg H (mkDg H dflt m ps leafs) leafs m hne (by omega) hleaf
+  rw [hps] at h1 h2 h3
+  exact ⟨_, paths, h3, h1, h2⟩
+
 end TF.MmrE
